@@ -100,6 +100,7 @@ fn judge(ctx: &Ctx, c: &Case, tags: &[(RVars, String)], sets: &[(&'static str, V
             if gl != el { diffs.push(format!("pre-release label {gl} expected {el}")); }
             match en {
                 Num::Unspecified => st.inc("unspecified_number"),
+                Num::OneOf(ns) => { st.inc("unspecified_number"); let g = gn.map(|x| x.to_string()).unwrap_or("none".into()); if !ns.contains(&g) { diffs.push(format!("pre-release number {g}, admissible {ns:?} (the first all-digit segment does not fit)")); } }
                 Num::Exact(n) => { let g = gn.map(|x| x.to_string()).unwrap_or("none".into()); if g != *n { diffs.push(format!("pre-release number {g} expected {n}")); } }
             }
         }
@@ -150,7 +151,7 @@ fn main() {
                 let gl = got.pre_release_label.to_string();
                 let gm = got.post_mode.to_string();
                 let em = if e.dev.is_some() { "tag" } else { "commit" };
-                let num_ok = match (&en, got.pre_release_num) { (Num::Unspecified, _) => true, (Num::Exact(n), Some(g)) => *n == g.to_string(), (Num::Exact(n), None) => *n == flow::branch_id(b, 5) };
+                let num_ok = match (&en, got.pre_release_num) { (Num::Unspecified, _) => true, (Num::OneOf(_), _) => true, (Num::Exact(n), Some(g)) => *n == g.to_string(), (Num::Exact(n), None) => *n == flow::branch_id(b, 5) };
                 if gl != el || gm != em || !num_ok {
                     ctx.violation("resolve_for_branch_mismatch", format!("{b} under {name}"), json!({"kind":"resolve","branch":b,"rules":name}), format!("got ({gl},{:?},{gm}) expected ({el},{en:?},{em})", got.pre_release_num));
                 }
